@@ -1,7 +1,7 @@
 //! unit: u18e
 //! properties: C18
 //! note: BOLT-12 stateless metadata (offers/signer.rs): a recipient's or payer's metadata verifies only if it is the HMAC, under this node's offers key, of exactly (the IV of the message kind, the nonce carried in the metadata, every TLV record of the object in order, the domain tags, and for a payer the encrypted payment id) -- or, for derived signing keys, if the object's signing key is the key derived from that HMAC; an object built against an altered copy, or presented under another node's key material, changes the HMAC input or key
-//! trusted: env: HMAC-SHA256 is uninterpreted: HmacEngine is a stub that records key and the concatenation of its inputs in ghost fields, Hmac::from_engine is hmac_sha256(key, data); fixed_time_eq is equality of byte strings; SecretKey::from_slice(hash) succeeds (a SHA256 output is a valid key, as the source's unwrap assumes), Keypair::from_secret_key / public_key / serialize give the uninterpreted pubkey_of; ExpandedKey skeleton {offers_base_key} with hmac_for_offer re-declared; Nonce(pub [u8; 16]); TlvRecord skeleton {record_bytes}
+//! trusted: env: HMAC-SHA256 is uninterpreted: HmacEngine is a stub that records key and the concatenation of its inputs in ghost fields, Hmac::from_engine is hmac_sha256(key, data); fixed_time_eq is equality of byte strings; SecretKey::from_slice(hash) succeeds (a SHA256 output is a valid key, as the source's unwrap assumes), Keypair::from_secret_key / public_key / serialize give the uninterpreted pubkey_of; x_only_public_key().0.serialize() is a separate uninterpreted function of the key (it forgets the parity, so equal x-only forms do not give equal keys); ExpandedKey skeleton {offers_base_key} with hmac_for_offer re-declared; Nonce(pub [u8; 16]); TlvRecord skeleton {record_bytes}
 //! plemma: C18 lemma_recipient_metadata_round_trip / lemma_payer_metadata_round_trip: the metadata derive_metadata writes (nonce ‖ HMAC, preceded by the encrypted payment id for a payer) is accepted by verify_recipient_metadata / verify_payer_metadata_inner for the same key, IV and TLV records
 //! trusted: creating side: `tlv_stream: W` (a Writeable TLV stream written into the HMAC engine) is taken as TlvBytes, whose write feeds its bytes to the engine; that these bytes are the concatenation of the records the verifier iterates is assumed (definition of TlvStream); R5: `mut self` (unsupported by Verus) is taken as a by-value parameter bound to a mutable local, `self` renamed accordingly; R7: `opt.map(|id| id.to_vec()).unwrap_or_default()` is written as a match (std semantics; Verus gives closures no specification)
 //! trusted: R5: `tlv_stream: impl Iterator<Item = TlvRecord<'a>>` is taken as `&Vec<TlvRecord<'a>>` (the records in iteration order) and `for record in tlv_stream` iterates it (R6); R8: slice plumbing Verus has no specification for goes through external_body wrappers with the std meaning: `&metadata[N..]` -> tail_from, `Nonce::try_from(&metadata[..Nonce::LENGTH])?` -> nonce_prefix (the first 16 bytes), `x.copy_from_slice(&metadata[..PaymentId::LENGTH])` -> copy_prefix32; R1: the four `const X: &[u8; 16] = &[b; 16];` domain tags are declared `exec const` with their value as postcondition (Verus cannot evaluate an array-repeat expression in a dual-mode const); R2: `#[cfg(fuzzing)]` statements dropped, `cfg!(fuzzing)` is false
@@ -34,11 +34,20 @@ impl SecretKey { #[verifier::external_body] pub fn from_slice(b: &[u8; 32]) -> (
 #[derive(Clone, Copy)] pub struct PublicKey { pub id: u64 }
 pub uninterp spec fn pubkey_of(secret: [u8; 32]) -> u64;
 pub uninterp spec fn ser(p: u64) -> Seq<u8>;
-impl PublicKey { #[verifier::external_body] pub fn serialize(&self) -> (r: [u8; 33]) ensures r@ == ser(self.id) { unimplemented!() } }
+// the x-only form of a key forgets its parity: two keys (a point and its negation) share it, so it is a separate uninterpreted function of the key
+pub uninterp spec fn ser_xonly(p: u64) -> Seq<u8>;
+pub struct XOnlyPublicKey { pub of: u64 }
+pub enum Parity { Even, Odd }
+impl XOnlyPublicKey { #[verifier::external_body] pub fn serialize(&self) -> (r: [u8; 32]) ensures r@ == ser_xonly(self.of) { unimplemented!() } }
+impl PublicKey {
+    #[verifier::external_body] pub fn serialize(&self) -> (r: [u8; 33]) ensures r@ == ser(self.id) { unimplemented!() }
+    #[verifier::external_body] pub fn x_only_public_key(&self) -> (r: (XOnlyPublicKey, Parity)) ensures r.0.of == self.id { unimplemented!() }
+}
 pub struct Keypair { pub secret: [u8; 32] }
 impl Keypair {
     #[verifier::external_body] pub fn from_secret_key(ctx: &Secp256k1, k: &SecretKey) -> (r: Keypair) ensures r.secret == k.bytes { unimplemented!() }
     #[verifier::external_body] pub fn public_key(&self) -> (r: PublicKey) ensures r.id == pubkey_of(self.secret) { unimplemented!() }
+    #[verifier::external_body] pub fn x_only_public_key(&self) -> (r: (XOnlyPublicKey, Parity)) ensures r.0.of == pubkey_of(self.secret) { unimplemented!() }
 }
 pub struct ExpandedKey { pub offers_base_key: [u8; 32] }
 impl ExpandedKey { pub fn hmac_for_offer(&self) -> (r: HmacEngine) ensures r.key@ == self.offers_base_key, r.data@ == Seq::<u8>::empty() { HmacEngine::new(&self.offers_base_key) } }
